@@ -566,3 +566,64 @@ def apply_edit(rng, world, kind):
             return None
         return w, {"kind": "body", "fun": f["name"], "deleted_call": True}
     return None
+
+
+# ---------------------------------------------------------------------------------------------
+# the hypotheses of the Lean theorems C01.sig_sound / memo_correct / history_correct (structure `Universe`
+# in lean/DdsProofs/SigSound.lean), checked on every function version that a run generates
+# ---------------------------------------------------------------------------------------------
+
+class UniverseCheck(object):
+    """faithful / prefixFaithful / sorted / lineBound / paramNames / noCtxParam / varsInj on the generated versions"""
+
+    def __init__(self):
+        self.by_lines = {}
+        self.by_prefix = {}
+        self.values = {}
+        self.problems = []
+        self.functions = 0
+
+    @staticmethod
+    def _code(f):
+        return json.dumps([f["name"], f["params"], f["store_path"], f["tag"], f["items"], f["fails"], f["uses_ext"], f.get("ws"),
+                           [n for (n, _) in f["vars"]]], sort_keys=True)
+
+    def add_world(self, mworld, hash_fn=None):
+        for f in mworld["funs"]:
+            self.functions += 1
+            key = tuple(f["lines"])
+            code = self._code(f)
+            if self.by_lines.setdefault(key, code) != code:
+                self.problems.append("faithful: two versions with the same source lines differ as programs: %s" % f["name"])
+            lines = [it["line"] for it in f["items"]]
+            if any(b <= a for a, b in zip(lines, lines[1:])):
+                self.problems.append("sorted: items of %s are not in strictly increasing line order" % f["name"])
+            if any(l >= len(f["lines"]) for l in lines):
+                self.problems.append("lineBound: an item of %s ends outside its source" % f["name"])
+            names = [p["name"] for p in f["params"]]
+            if len(set(names)) != len(names) or "context" in names:
+                self.problems.append("paramNames / noCtxParam: %s has parameters %s" % (f["name"], names))
+            if any(p["kind"] != "POSITIONAL_OR_KEYWORD" for p in f["params"]):
+                self.problems.append("plainParams: %s" % f["name"])
+            for n in [0] + lines:
+                pk = tuple(f["lines"][: n + 1])
+                pv = json.dumps([f["params"], [it for it in f["items"] if it["line"] <= n]], sort_keys=True)
+                if self.by_prefix.setdefault(pk, pv) != pv:
+                    self.problems.append("prefixFaithful: the same text up to line %d of %s gives different calls" % (n, f["name"]))
+            if hash_fn is not None:
+                # two separate sets (Universe.vals / Universe.avals): a variable is never compared with an argument
+                avals = [p["default"] for p in f["params"] if p["default"] is not None]
+                for it in f["items"]:
+                    avals += [a for a in it.get("args", []) if a.get("t") != "other"]
+                    avals += [a for (_, a) in it.get("kwargs", []) if a.get("t") != "other"]
+                for kind, vals in (("vars", [v for (_, v) in f["vars"]]), ("args", avals)):
+                    seen = self.values.setdefault(kind, {})
+                    for v in vals:
+                        js = json.dumps(v, sort_keys=True)
+                        if js in seen:
+                            continue
+                        h = hash_fn(v)
+                        seen[js] = h
+                        for js2, h2 in seen.items():
+                            if js2 != js and h2 == h:
+                                self.problems.append("%sInj: two %s values of the generated programs have the same dds_hash: %s %s" % (kind, kind, js, js2))
